@@ -65,6 +65,14 @@ contract(T + ".__init__", "C03", is_init=True, params={"tools": "none", "allowed
                   "starts-without-tools": "len(self.tools) == 0"})
 
 
+# the convenience registration: the tool that reaches the registry declares exactly the capabilities the caller gave (none given = none required)
+contract(T + ".register_function", "C03", params={"func": "callback", "required_capabilities": "opt:set:enum:Capability", "parameters_schema": "opt:dict:str,any"},
+         callbacks={"Mitochondria.engulf_tool": {"returns": "any", "raises": ()}}, raises=[],
+         callsite_pre={".engulf_tool": {"registers-the-declared-capabilities":
+                                        "arg0.name == name and implies(required_capabilities is not None and len(required_capabilities) > 0, "
+                                        "arg0.required_capabilities is required_capabilities)"}},
+         ensures={"registered-once": "calls_to('.engulf_tool') == 1"})
+
 # the schema export the tool loop assumes total: its own totality obligation (tools typed as SimpleTool: a name, a description, a schema)
 shape("MitochondriaS", tools="dict:str,obj:SimpleTool", silent="bool")
 contract(F + "::Mitochondria.export_tool_schemas", "C03", self_type="MitochondriaS", raises=[], modifies=[],
